@@ -592,6 +592,30 @@ func init() {
 		e.setHeapIn(st, "HF_textproto.Reader_$pos", "(Array Int Int)", store(posH, rd, npos))
 		return res, true
 	}
+	// io.ReadAll + golang.org/x/mod/modfile.Parse: the parsed go.mod is a function of the reader the bytes came from
+	// (same stream contract as the decoders: decoded(reader, *modfile.File)).
+	H["io.ReadAll"] = func(e *Engine, fc *fnCtx, st *State, c *ssa.CallCommon, a []Val, r types.Type) (Val, bool) {
+		res := e.freshVal("readall", r)
+		if len(res.Tuple) != 2 {
+			return Val{}, false
+		}
+		ref := e.newRef(st, "readall")
+		e.sc.declareFun("readsrc", []string{"Int"}, "Int")
+		e.assume(st, and("(= (s_ref "+res.Tuple[0].T+") "+ref+")", "(= (s_off "+res.Tuple[0].T+") 0)", "(= (readsrc "+ref+") "+a[0].T+")"))
+		return res, true
+	}
+	H["golang.org/x/mod/modfile.Parse"] = func(e *Engine, fc *fnCtx, st *State, c *ssa.CallCommon, a []Val, r types.Type) (Val, bool) {
+		res := e.freshVal("modparse", r)
+		if len(res.Tuple) != 2 {
+			return Val{}, false
+		}
+		e.sc.declareFun("readsrc", []string{"Int"}, "Int")
+		v := e.decodedTerm("(readsrc (s_ref "+a[1].T+"))", res.Tuple[0].GoT)
+		e.assume(st, and(implies("(= "+res.Tuple[1].T+" 0)", and("(= "+res.Tuple[0].T+" "+v.T+")", "(> "+v.T+" 0)", "(<= "+v.T+" "+e.allocCounter(st)+")")),
+			implies("(not (= "+res.Tuple[1].T+" 0))", "(= "+res.Tuple[0].T+" 0)")))
+		e.w.Trusted["modfile.Parse: the parsed file is a function of the reader its bytes were read from (stream contract); on success it is non-nil"] = true
+		return res, true
+	}
 	// maps.Values / maps.Keys (x/exp and std-lib collectors): a fresh slice holding each present key's value (key)
 	// exactly once, in unspecified order - a bijection between the present keys and the indices of the result.
 	mapsCollect := func(values bool) stdHandler {
